@@ -111,6 +111,22 @@ pub fn check_scc<F: Fl>(c: &CCase) -> Result<String, (String, String)> {
         Err(f) => return Err((format!("scc/{}", f.kind()), format!("{}: scc() did not return: {}", c.program(F::NAME), f.msg()))),
     };
     let blocks: Vec<Vec<K>> = res.iter().map(|b| b.iter().map(F::key).collect()).collect();
+    // a second call on the same container must give the same partition, and
+    // neither call may change the graph
+    let pre = crate::gsweep::build_world::<F>(&vals, &c.conns).observe_raw();
+    match guarded(|| F::g_scc(&g).expect("directed flavour")) {
+        Ok(r2) => {
+            let p1: BTreeSet<BTreeSet<K>> = blocks.iter().map(|b| b.iter().cloned().collect()).collect();
+            let p2: BTreeSet<BTreeSet<K>> = r2.iter().map(|b| b.iter().map(F::key).collect()).collect();
+            if p1 != p2 {
+                return Err(("scc/second-call-differs".into(), format!("{}: first scc() = {:?}, second scc() on the same graph = {:?}", c.program(F::NAME), p1, p2)));
+            }
+        }
+        Err(f) => return Err((format!("scc/second-call-{}", f.kind()), format!("{}: second scc() did not return: {}", c.program(F::NAME), f.msg()))),
+    }
+    if w.observe_raw() != pre {
+        return Err(("scc/mutated-graph".into(), format!("{}: adjacency after scc() {:?}, before {:?}", c.program(F::NAME), w.observe_raw(), pre)));
+    }
     let exp = ref_scc(&m);
     let mut seen = BTreeSet::new();
     let detail = |what: &str| format!("{} (iteration order {:?}): scc() = {:?}; {}; strongly connected components are {:?}", c.program(F::NAME), order, blocks, what, exp);
@@ -140,12 +156,21 @@ fn incident<F: Fl>(n: &F::Node) -> Vec<Arc3> {
     F::edges_out(n).iter().map(|e| F::edge_accessors(e)).collect()
 }
 
+/// The graph is serialised and read back twice (the second time from the
+/// same, already serialised container): both round trips must be faithful.
 pub fn check_roundtrip<F: Fl>(c: &CCase) -> Result<String, (String, String)> {
     let vals = vals_of(c.n);
     let w = crate::gsweep::build_world::<F>(&vals, &c.conns);
     let g = container::<F>(&w, &c.insertion, c.seed);
+    let first = roundtrip_once::<F>(c, &w, &g)?;
+    roundtrip_once::<F>(c, &w, &g).map_err(|(code, d)| (code, format!("second serialisation of the same graph: {}", d)))?;
+    Ok(first)
+}
+
+fn roundtrip_once<F: Fl>(c: &CCase, w: &World<F>, g: &F::Graph) -> Result<String, (String, String)> {
     let fail = |code: &str, d: String| Err((format!("serde/{}", code), format!("{}: {}", c.program(F::NAME), d)));
     set_seed(Some(c.seed2));
+    let pre = w.observe_raw();
     let g2 = guarded(|| -> Result<(F::Graph, String), String> {
         if c.fmt == "json" {
             let s = F::g_to_json(&g)?;
@@ -157,6 +182,9 @@ pub fn check_roundtrip<F: Fl>(c: &CCase) -> Result<String, (String, String)> {
         }
     });
     set_seed(None);
+    if w.observe_raw() != pre {
+        return fail("serialisation-mutated-graph", format!("adjacency after serialising {:?}, before {:?}", w.observe_raw(), pre));
+    }
     let (g2, doc) = match g2 {
         Ok(Ok(x)) => x,
         Ok(Err(e)) => return fail("error", format!("round trip failed: {}", e)),
